@@ -1,41 +1,60 @@
-"""Python -> Lean, statement by statement, for the two free functions of ansi_parsing.py:
-`settings_to_dict` and `parse_graphic_sequence` (part of translate.py's output, next to pyobj.py).
+"""Python -> Lean, statement by statement (part of translate.py's output, next to pyobj.py), for
+  * the two free functions of ansi_parsing.py: `settings_to_dict` and `parse_graphic_sequence`;
+  * four methods of `class AnsiSetting` (ansi_format.py): `valid`, `to_list`, `parsable`, `get_initial_param`.
 
 What comes from the source: the statements, their order, the conditions, the shapes of the loops.
-What this module knows beforehand is a small table of *types and primitives* (below: `GLOBALS`,
-`attribute`, `call`): how a name the functions use from elsewhere (`ansi_sep`, `AnsiParam.RESET.value`,
-`_AnsiControlFn`, `AnsiSetting(...)`, `.parsable`, `.get_initial_param()`, ...) is written over the
-hand-written model (`AnsiModel/Parse.lean`, `Setting.lean`, `PyStr.lean`, `Obj.lean`, the generated tables).
+What this module knows beforehand is a small table of *types and primitives* (below: `GLOBALS`, `GLOBAL_ITEMS`,
+`SELF_FIELDS`, `SELF_METHODS`, `attribute`, `call`): how a name the functions use from elsewhere (`ansi_sep`,
+`AnsiParam.RESET.value`, `ansi_term_ord_range[0]`, `_AnsiControlFn`, `AnsiSetting(...)`, `AnsiParam(...)`,
+`.parsable`, `.get_initial_param()`, ...) is written over the hand-written model (`AnsiModel/Parse.lean`,
+`Setting.lean`, `PyStr.lean`, `Obj.lean`, the generated tables) and the primitives of `PRIMS` (emitted as
+Generated/Methods/ParsePrims.lean).
 
 Subset (anything else raises `Unsupported`; the function then becomes a NOT-TRANSLATED stub with
 `<name>Ok := false`):
 
-  statements   `x = e`, `x: T = e`, `x += e`, `x -= e`, `l[i] = e`, `d[k] = e`, `del d[k]`, `del l[i]`,
-               `l.append(e)`, `if/elif/else`, `for a, b in enumerate(l)`, `for x in l`,
-               `for fn in _AnsiControlFn`, `continue`, `return e` (not inside a loop),
-               `try: <target> = int(e)  except ValueError: ...`, `pass`, doc strings
-  expressions  names, literals, `[]`, `{}`, `[e, ...]`, `[e for x in l]`, `len`, `list(l)`, `dict(d)`,
-               `isinstance(x, int|str)`, `AnsiSetting(e)`, `s.strip()`, `s.split(sep)`, `l[i]`, `l[a:b]`,
+  statements   `x = e`, `x: T = e`, `x += e`, `x -= e`, `l[i] = e`, `d[k] = e`, `self._valid = e`, `del d[k]`,
+               `del l[i]`, `l.append(e)`, a call evaluated for what it may raise, `if/elif/else`,
+               `for a, b in enumerate(l)`, `for x in <list or str>`, `for fn in _AnsiControlFn`, `continue`,
+               `return e` (also inside loops), `raise ValueError()`,
+               `try: … except ValueError: … [else: …]`, `pass`, doc strings
+  expressions  names, literals, `[]`, `{}`, `[e, ...]`, `[e for x in l]`, `len`, `list(l)`, `dict(d)`, `int(e)`,
+               `ord(c)`, `hasattr(self, '_valid')`, `isinstance(x, int|str)`, `AnsiSetting(e)`, `AnsiParam(e)`,
+               `s.strip()`, `s.isdigit()`, `s.split(sep)`, `s.split(sep, 1)`, `l[i]`, `l[a:b]`,
+               `self._str`, `self._valid`, `self.valid`, `self.to_list()`, …,
                `== != < <= > >=`, `in`/`not in` (dict), `is None`/`is not None`, `and or not`, `+ - *`,
                truth values of ints, strs, lists, dicts, int-or-str items
 
 Shape of the output (the conventions of pyobj.py):
 
   * every function returns `Except Exc R`: an expression that can raise in Python (`l[i]`, `l[i] = v`,
-    `del d[k]`, `AnsiSetting(x)` on an empty text, `s.split(sep)`) is `(…).bind fun t =>`; everything else
-    is a `let`;  re-assignment is a shadowing `let`;
+    `del d[k]`, `AnsiSetting(x)` on an empty text, `s.split(sep)`, `self._valid` when absent) is
+    `(…).bind fun t =>`; everything else is a `let`;  re-assignment is a shadowing `let`;
   * a `for` loop is `List.foldlM` over the iterated values with the variables the body assigns (and that
     exist before the loop) as an explicit state tuple, ordered by type (variables of one type: in the order of
     their first assignment in the body);
     `continue` yields the state;  `for i, v in enumerate(l)` runs over the indices `range(len(l))` and
     fetches `v = l[i]` from the *current* list at the start of every round (what the list iterator of
     CPython does) — the body may store into `l[...]`, it may not change the length of `l`;
+  * `return e` inside a loop: the state gets a first component `ret_ : Option R` (`some r`: the function has
+    returned `r`); a round starts with `if ret_.isSome then <state unchanged>`; after the loop,
+    `match ret_ with | some r_ => <return r_> | none => <what follows the loop>`;
   * statements after an `if` both of whose branches go on are put into a local function (`k1_`, ...)
     of the variables assigned in the branches, called at the end of each branch;
+  * `try: B except ValueError: H else: E`: H is a local function `h1_` of the variables B assigns; inside B,
+    what raises ValueError — `raise ValueError()`, `int(<str>)` (`Py.int … = none`), `AnsiParam(<int>)`
+    (`ansiParam … = none`) — is a call of it; E follows B outside the handler; other exceptions pass through.
+    Outside a `try`, the same places are `.error (.py .valueError)`;
+  * `if a or b` / `if a and b` where `b` can raise or needs what `isinstance(…)` in `a` established become
+    nested `if`s; `if not (a and b)` swaps the branches;
   * a value that is an `int` or a `str` at run time is the model's `Code`; all lists of such values are
     `List Code`; `isinstance(v, int)` as the test of an `if` is a `match` that rebinds `v` as `Int` /
     `Str` in the branches;  a parameter annotated `Union[str, List[...]]` gives one Lean function per
-    member of the union, `isinstance(param, str)` being decided while translating.
+    member of the union, `isinstance(param, str)` being decided while translating;
+  * `self` in a method of AnsiSetting is `PyParse.SObj` (the text and the two cache attributes as
+    `Option Bool`, `none` = `hasattr` is False); a method that assigns attributes (or reads a property that
+    does) returns `(result, self)`; reading such a property of self is
+    `(Gen.settingValid self).bind fun t => let self := t.2` with the value `t.1`.
 """
 import ast
 import os
@@ -44,6 +63,7 @@ import re
 from pyint import Unsupported, mangle
 
 SRC = os.path.join('src', 'ansi_string', 'ansi_parsing.py')
+SRC_FORMAT = os.path.join('src', 'ansi_string', 'ansi_format.py')
 
 # ---------------------------------------------------------------------------------------------------
 # types
@@ -75,8 +95,10 @@ class Ty:
 
 STR, INT, BOOL, CODE, NAT = Ty('Str'), Ty('Int'), Ty('Bool'), Ty('Code'), Ty('Nat')
 STXT, SOBJ, DICT, OPTPARAM, PARAM, CTRLFN = Ty('SettingTxt'), Ty('SettingObj'), Ty('Dict'), Ty('OptParam'), Ty('Param'), Ty('CtrlFn')
+CHAR, SELF = Ty('Char'), Ty('Self')          # Self: `self` inside a method of AnsiSetting (the text and the two cache attributes)
 LEAN_TY = {'Str': 'Str', 'Int': 'Int', 'Bool': 'Bool', 'Code': 'Code', 'Nat': 'Nat', 'SettingTxt': 'Str', 'SettingObj': 'Setting',
-           'Dict': 'PyDict', 'OptParam': 'Option (Nat × Nat)', 'Param': 'Nat × Nat', 'CtrlFn': 'List Nat × Nat'}
+           'Dict': 'PyDict', 'OptParam': 'Option (Nat × Nat)', 'Param': 'Nat × Nat', 'CtrlFn': 'List Nat × Nat',
+           'Char': 'Char', 'Self': 'PyParse.SObj'}
 SCALAR = ('Int', 'Str', 'Code')
 MUTABLE = ('List', 'Dict')
 
@@ -159,7 +181,17 @@ GLOBALS = {
     'AnsiParamEffectFn.RESET_ALL': ('ansi_param', 'Gen.fnResetAll', NAT),
 }
 ITERABLE_GLOBALS = {'_AnsiControlFn': ('ansi_format', 'Gen.ctrlFns', CTRLFN)}
-CLASSES = {'AnsiSetting': 'ansi_format'}
+CLASSES = {'AnsiSetting': 'ansi_format', 'AnsiParam': 'ansi_param'}
+# items of module-level tuples
+GLOBAL_ITEMS = {('ansi_term_ord_range', 0): ('ansi_format', '(Gen.termLo : Int)', INT),
+                ('ansi_term_ord_range', 1): ('ansi_format', '(Gen.termHi : Int)', INT)}
+# `self` inside the methods of AnsiSetting: attribute -> (field of PyParse.SObj, type, is a cache that may be absent)
+SELF_FIELDS = {'_str': ('str', STR, False), '_valid': ('valid_', BOOL, True), '_parsable': ('parsable_', BOOL, True)}
+# translated methods of AnsiSetting: name -> (Lean name, module, type of the result, assigns attributes of self, is a property)
+SELF_METHODS = {'valid': ('settingValid', 'SettingValid', BOOL, True, True),
+                'to_list': ('settingToList', 'SettingToList', List_(CODE), False, False),
+                'parsable': ('settingParsable', 'SettingParsable', BOOL, True, True),
+                'get_initial_param': ('settingInitialParam', 'SettingInitialParam', OPTPARAM, False, False)}
 
 
 def lean_str(s):
@@ -175,9 +207,16 @@ def ind(lines, n=2):
 
 
 class Ctx:
-    """where a block is: result type of the enclosing function body / loop body, what `continue` means"""
-    def __init__(self, result, cont=None, in_loop=False):
-        self.result, self.cont, self.in_loop = result, cont, in_loop
+    """where a block is: result type of the enclosing function body / loop body; what `return x` and `continue`
+    are there; the lines a ValueError leads to (inside `try … except ValueError`; None: it leaves the function)"""
+    def __init__(self, result, ret, cont=None, in_loop=False, handler=None):
+        self.result, self.ret, self.cont, self.in_loop, self.handler = result, ret, cont, in_loop, handler
+
+    def but(self, **kw):
+        c = Ctx(self.result, self.ret, self.cont, self.in_loop, self.handler)
+        for a, v in kw.items():
+            setattr(c, a, v)
+        return c
 
 
 class Fn:
@@ -188,13 +227,17 @@ class Fn:
         self.ntmp = 0
         self.njoin = 0
         self.nmark = 0
+        self.deps = set()                          # generated modules of translated methods that are called
 
     def tmp(self):
         self.ntmp += 1
         return 't%d_' % self.ntmp
 
     # -- expressions --------------------------------------------------------------------------------
-    # ex(e, env) -> (binds, text, type); binds = [(raising Lean expression, name)] to be run before
+    # ex(e, env) -> (binds, text, type); binds = [(kind, Lean expression, name)] to be run before:
+    #   'bind'  an `Except`: `(e).bind fun name =>`
+    #   'opt'   an `Option`, `none` being a ValueError: goes to the handler of the enclosing `try`, or leaves the function
+    #   'self'  a call of a translated method that assigns attributes of self: `(e).bind fun name =>`, self := name.2
 
     def dotted(self, e):
         parts = []
@@ -235,7 +278,8 @@ class Fn:
                 self.need_import(d.split('.')[0], mod)
                 return [], text, ty
             b, x, t = self.ex(e.value, env)
-            return (b,) + self.attribute(x, t.r(), e.attr)
+            b2, x2, t2 = self.attribute(x, t.r(), e.attr)
+            return b + b2, x2, t2
         if isinstance(e, ast.UnaryOp) and isinstance(e.op, ast.Not):
             b, x = self.truth(e.operand, env)
             return b, '(!%s)' % x, BOOL
@@ -298,6 +342,11 @@ class Fn:
             x = self.coerce(x, tx, elem)
             return b, '(%s.map (fun (%s : %s) => %s))' % (it, mangle(g.target.id), lean_ty(t.elem), x), List_(elem)
         if isinstance(e, ast.Subscript):
+            if isinstance(e.value, ast.Name) and isinstance(e.slice, ast.Constant) and (e.value.id, e.slice.value) in GLOBAL_ITEMS \
+                    and e.value.id not in env and e.value.id not in self.locals:
+                mod, text, ty = GLOBAL_ITEMS[(e.value.id, e.slice.value)]
+                self.need_import(e.value.id, mod)
+                return [], text, ty
             b, x, t = self.ex(e.value, env)
             t = t.r()
             if t.kind != 'List':
@@ -320,7 +369,7 @@ class Fn:
             if ti.r().kind != 'Int':
                 raise Unsupported('index ' + ast.unparse(e.slice))
             n = self.tmp()
-            return b + bi + [('Py.getIdx %s %s' % (x, i), n)], n, t.elem
+            return b + bi + [('bind', 'Py.getIdx %s %s' % (x, i), n)], n, t.elem
         if isinstance(e, ast.Call):
             return self.call(e, env)
         raise Unsupported(ast.unparse(e))
@@ -343,27 +392,48 @@ class Fn:
 
     def attribute(self, x, t, attr):
         k = t.kind
+        if k == 'Self':
+            if attr in SELF_FIELDS:
+                field, ty, cache = SELF_FIELDS[attr]
+                if not cache:
+                    return [], '%s.%s' % (x, field), ty
+                n = self.tmp()          # AttributeError when the attribute has not been assigned yet
+                return [('bind', 'PyParse.getAttr %s.%s' % (x, field), n)], n, ty
+            if attr in SELF_METHODS and SELF_METHODS[attr][4]:
+                return self.self_call(x, attr)
+            raise Unsupported('attribute .%s of self' % attr)
         if attr == 'parsable' and k == 'SettingTxt':
-            return '(SettingTxt.parsable %s)' % x, BOOL
+            return [], '(SettingTxt.parsable %s)' % x, BOOL
         if attr == 'parsable' and k == 'SettingObj':
-            return '(SettingTxt.parsable %s.txt)' % x, BOOL
+            return [], '(SettingTxt.parsable %s.txt)' % x, BOOL
         if attr == 'valid' and k == 'SettingTxt':
-            return '(SettingTxt.valid %s)' % x, BOOL
+            return [], '(SettingTxt.valid %s)' % x, BOOL
         if attr == 'valid' and k == 'SettingObj':
-            return '(SettingTxt.valid %s.txt)' % x, BOOL
+            return [], '(SettingTxt.valid %s.txt)' % x, BOOL
         if k == 'CtrlFn':
             if attr == 'total_seq_count':
-                return '(((%s.1.length + %s.2 : Nat) : Int))' % (x, x), INT
+                return [], '(((%s.1.length + %s.2 : Nat) : Int))' % (x, x), INT
             if attr == 'num_args':
-                return '((%s.2 : Nat) : Int)' % x, INT
+                return [], '((%s.2 : Nat) : Int)' % x, INT
             if attr == 'setup_seq':           # a tuple of ints: never changed, so sharing it is harmless
-                return '(%s.1.map Int.ofNat)' % x, List_(INT)
+                return [], '(%s.1.map Int.ofNat)' % x, List_(INT)
         if k == 'Param':
             if attr == 'effect_type':
-                return '%s.1' % x, NAT
+                return [], '%s.1' % x, NAT
             if attr == 'effect_fn':
-                return '%s.2' % x, NAT
+                return [], '%s.2' % x, NAT
         raise Unsupported('attribute .%s of %r' % (attr, t))
+
+    def self_call(self, x, name):
+        """a translated method of AnsiSetting called on self"""
+        lean, mod, ty, mutates, _ = SELF_METHODS[name]
+        if x != 'self':
+            raise Unsupported('method of another object')
+        self.deps.add(mod)
+        n = self.tmp()
+        if mutates:
+            return [('self', 'Gen.%s %s' % (lean, x), n)], '%s.1' % n, ty
+        return [('bind', 'Gen.%s %s' % (lean, x), n)], n, ty
 
     def truth(self, e, env):
         """-> (binds, Bool text): the truth value Python takes of e"""
@@ -450,7 +520,30 @@ class Fn:
                 b, x, t = self.ex(e.args[0], env)
                 if t.r().kind == 'Int':
                     return b, x, INT
-                raise Unsupported('int() of %r outside `try: x = int(v) except ValueError`' % t)
+                conv = {'Code': '(PyParse.int %s)', 'Str': '(Py.int %s)'}.get(t.r().kind)
+                if conv is None:
+                    raise Unsupported('int() of %r' % t)
+                n = self.tmp()
+                return b + [('opt', conv % x, n)], n, INT
+            if f.id == 'ord' and len(e.args) == 1:
+                b, x, t = self.ex(e.args[0], env)
+                if t.r().kind != 'Char':
+                    raise Unsupported('ord() of %r' % t)
+                return b, '((%s).toNat : Int)' % x, INT
+            if f.id == 'hasattr' and len(e.args) == 2 and isinstance(e.args[1], ast.Constant) and e.args[1].value in SELF_FIELDS \
+                    and SELF_FIELDS[e.args[1].value][2]:
+                b, x, t = self.ex(e.args[0], env)
+                if t.r().kind != 'Self':
+                    raise Unsupported(ast.unparse(e))
+                return b, '(%s.%s).isSome' % (x, SELF_FIELDS[e.args[1].value][0]), BOOL
+            if f.id == 'AnsiParam' and len(e.args) == 1:
+                self.need_import('AnsiParam', CLASSES['AnsiParam'])
+                b, x, t = self.ex(e.args[0], env)
+                conv = {'Int': '(ansiParam %s)', 'Code': '(PyParse.ansiParamCode %s)'}.get(t.r().kind)
+                if conv is None:
+                    raise Unsupported('AnsiParam of %r' % t)
+                n = self.tmp()
+                return b + [('opt', conv % x, n)], n, PARAM
             if f.id == 'AnsiSetting' and len(e.args) == 1:
                 self.need_import('AnsiSetting', CLASSES['AnsiSetting'])
                 b, x, t = self.ex(e.args[0], env)
@@ -463,7 +556,7 @@ class Fn:
                 if fnm is None:
                     raise Unsupported('AnsiSetting of %r' % t)
                 n = self.tmp()
-                return b + [('PyParse.%s %s' % (fnm, x), n)], n, STXT
+                return b + [('bind', 'PyParse.%s %s' % (fnm, x), n)], n, STXT
             raise Unsupported('call of ' + f.id)
         if isinstance(f, ast.Attribute):
             b, x, t = self.ex(f.value, env)
@@ -475,7 +568,16 @@ class Fn:
                 return b, '(Py.strip %s)' % x, STR
             if f.attr == 'split' and k == 'Str' and len(args) == 1 and args[0][2].r().kind == 'Str':
                 n = self.tmp()
-                return b + [('PyParse.split %s %s' % (x, args[0][1]), n)], n, List_(STR)
+                return b + [('bind', 'PyParse.split %s %s' % (x, args[0][1]), n)], n, List_(STR)
+            if f.attr == 'split' and k == 'Str' and len(args) == 2 and args[0][2].r().kind == 'Str' \
+                    and isinstance(e.args[1], ast.Constant) and e.args[1].value == 1 and not isinstance(e.args[1].value, bool):
+                n = self.tmp()          # maxsplit = 1
+                return b + [('bind', 'PyParse.split1 %s %s' % (x, args[0][1]), n)], n, List_(STR)
+            if f.attr == 'isdigit' and k == 'Str' and not args:
+                return b, '(Py.isdigit %s)' % x, BOOL
+            if k == 'Self' and f.attr in SELF_METHODS and not SELF_METHODS[f.attr][4] and not args:
+                b2, x2, t2 = self.self_call(x, f.attr)
+                return b + b2, x2, t2
             if f.attr == 'seq_starts_with_fn' and k == 'CtrlFn' and len(args) == 1:
                 ta = args[0][2].r()
                 if ta.kind == 'List':
@@ -491,9 +593,18 @@ class Fn:
 
     # -- statements -----------------------------------------------------------------------------------
 
-    @staticmethod
-    def binds_lines(binds):
-        return ['(%s).bind fun %s =>' % (x, n) for x, n in binds]
+    def wrap(self, binds, lines, ctx):
+        """the lines, after what has to be evaluated before them"""
+        for kind, x, n in reversed(binds):
+            if kind == 'bind':
+                lines = ['(%s).bind fun %s =>' % (x, n)] + lines
+            elif kind == 'self':
+                lines = ['(%s).bind fun %s =>' % (x, n), 'let self : PyParse.SObj := %s.2' % n] + lines
+            else:
+                handler = ctx.handler if ctx.handler is not None else ['.error (.py .valueError)']
+                lines = ['(match %s with' % x, '| none =>'] + ind(handler) + ['| some %s =>' % n] + ind(lines)
+                lines[-1] += ')'
+        return lines
 
     def stores(self, stmts, out=None):
         """name -> kinds of stores ('bind', 'item', 'append', 'del'), in order of first occurrence"""
@@ -510,9 +621,15 @@ class Fn:
                     target(x, k)
             elif isinstance(t, ast.Subscript) and isinstance(t.value, ast.Name):
                 add(t.value.id, 'item' if k == 'bind' else 'del')
+            elif isinstance(t, ast.Attribute) and isinstance(t.value, ast.Name) and k == 'bind':
+                add(t.value.id, 'bind')
             else:
                 raise Unsupported('store into ' + ast.unparse(t))
         for s in stmts:
+            for n in ast.walk(s):       # reading a translated property that fills its cache changes self
+                if isinstance(n, ast.Attribute) and isinstance(n.value, ast.Name) and n.value.id == 'self' \
+                        and n.attr in SELF_METHODS and SELF_METHODS[n.attr][3]:
+                    add('self', 'bind')
             if isinstance(s, ast.Assign):
                 for t in s.targets:
                     target(t)
@@ -550,6 +667,8 @@ class Fn:
                 return False
             if isinstance(s, ast.If) and s.orelse and not self.falls(s.body) and not self.falls(s.orelse):
                 return False
+            if isinstance(s, ast.Try) and not self.falls(list(s.body) + list(s.orelse)) and not any(self.falls(h.body) for h in s.handlers):
+                return False
         return True
 
     def bind_name(self, name, x, t, env):
@@ -570,12 +689,20 @@ class Fn:
                 raise Unsupported('name ' + name)
             tc = env[name].r()
             bk, k, tk = self.ex(target.slice, env)
-            lines = self.binds_lines(bk)
+            if any(kind == 'opt' for kind, _, _ in bk):
+                raise Unsupported('subscript of the target: ' + ast.unparse(target))
+            lines = self.wrap(bk, [], None)
             if tc.kind == 'List' and tk.r().kind == 'Int':
                 v = self.coerce(x, t, tc.elem)
                 return lines + ['(Py.setIdx %s %s %s).bind fun %s =>' % (mangle(name), k, v, mangle(name))]
             if tc.kind == 'Dict' and tk.r().kind == 'Nat' and t.r().kind == 'SettingObj':
                 return lines + ['let %s : PyDict := (PyDict.insert %s %s %s)' % (mangle(name), mangle(name), k, x)]
+        if isinstance(target, ast.Attribute) and isinstance(target.value, ast.Name) and target.value.id in env \
+                and env[target.value.id].r().kind == 'Self' and target.attr in SELF_FIELDS and SELF_FIELDS[target.attr][2]:
+            field, ty, _ = SELF_FIELDS[target.attr]
+            unify(t, ty, 'for ' + ast.unparse(target))
+            n = mangle(target.value.id)
+            return ['let %s : PyParse.SObj := { %s with %s := some %s }' % (n, n, field, x)]
         raise Unsupported('assignment to ' + ast.unparse(target))
 
     def value_for_store(self, e, env):
@@ -599,7 +726,7 @@ class Fn:
                 raise Unsupported(ast.unparse(s))
             b, x, t = self.value_for_store(s.value, env)
             env = dict(env)
-            return self.binds_lines(b) + self.assign(s.targets[0], x, t, env) + go(env)
+            return self.wrap(b, self.assign(s.targets[0], x, t, env) + go(env), ctx)
         if isinstance(s, ast.AnnAssign):
             if s.value is None or not isinstance(s.target, ast.Name):
                 raise Unsupported(ast.unparse(s))
@@ -609,7 +736,7 @@ class Fn:
                 raise Unsupported(ast.unparse(s))
             unify(t, ann[0], 'annotation of ' + s.target.id)
             env = dict(env)
-            return self.binds_lines(b) + self.assign(s.target, x, t, env) + go(env)
+            return self.wrap(b, self.assign(s.target, x, t, env) + go(env), ctx)
         if isinstance(s, ast.AugAssign):
             if not (isinstance(s.target, ast.Name) and isinstance(s.op, (ast.Add, ast.Sub)) and s.target.id in env and env[s.target.id].r().kind == 'Int'):
                 raise Unsupported(ast.unparse(s))
@@ -618,7 +745,7 @@ class Fn:
                 raise Unsupported(ast.unparse(s))
             env = dict(env)
             n = mangle(s.target.id)
-            return self.binds_lines(b) + self.bind_name(s.target.id, '(%s %s %s)' % (n, '+' if isinstance(s.op, ast.Add) else '-', x), INT, env) + go(env)
+            return self.wrap(b, self.bind_name(s.target.id, '(%s %s %s)' % (n, '+' if isinstance(s.op, ast.Add) else '-', x), INT, env) + go(env), ctx)
         if isinstance(s, ast.Delete):
             if len(s.targets) != 1:
                 raise Unsupported(ast.unparse(s))
@@ -629,9 +756,9 @@ class Fn:
             tc = env[t0.value.id].r()
             bk, kx, tk = self.ex(t0.slice, env)
             if tc.kind == 'Dict' and tk.r().kind == 'Nat':
-                return self.binds_lines(bk) + ['(PyParse.dictDel %s %s).bind fun %s =>' % (name, kx, name)] + go(env)
+                return self.wrap(bk, ['(PyParse.dictDel %s %s).bind fun %s =>' % (name, kx, name)] + go(env), ctx)
             if tc.kind == 'List' and tk.r().kind == 'Int':
-                return self.binds_lines(bk) + ['(Py.delIdx %s %s).bind fun %s =>' % (name, kx, name)] + go(env)
+                return self.wrap(bk, ['(Py.delIdx %s %s).bind fun %s =>' % (name, kx, name)] + go(env), ctx)
             raise Unsupported(ast.unparse(s))
         if isinstance(s, ast.Expr):
             c = s.value
@@ -641,16 +768,31 @@ class Fn:
                 b, x, t = self.value_for_store(c.args[0], env)
                 v = self.coerce(x, t, env[name].r().elem)
                 env = dict(env)
-                return self.binds_lines(b) + self.bind_name(name, '(%s ++ [%s])' % (mangle(name), v), env[name], env) + go(env)
+                return self.wrap(b, self.bind_name(name, '(%s ++ [%s])' % (mangle(name), v), env[name], env) + go(env), ctx)
+            if isinstance(c, ast.Call):               # evaluated for what it may raise
+                b, x, t = self.ex(c, env)
+                return self.wrap(b, go(env), ctx)
             raise Unsupported(ast.unparse(s))
         if isinstance(s, ast.Return):
-            if ctx.in_loop:
-                raise Unsupported('return inside a loop')
             if s.value is None:
                 raise Unsupported('return without a value')
-            b, x, t = self.ex(s.value, env)
+            if isinstance(s.value, ast.Constant) and s.value.value is None:
+                if not self.ret_optional:
+                    raise Unsupported('return None')
+                b, x, t = [], '(none : Option (Nat × Nat))', OPTPARAM
+            else:
+                b, x, t = self.ex(s.value, env)
+                if self.ret_optional and t.r().kind == 'Param':
+                    x, t = '(some %s)' % x, OPTPARAM
             unify(self.ret, t, 'returned')
-            return self.binds_lines(b) + ['.ok %s' % x]
+            return self.wrap(b, ctx.ret(x), ctx)
+        if isinstance(s, ast.Raise):
+            e = s.exc
+            if isinstance(e, ast.Call) and not e.args and not e.keywords:
+                e = e.func
+            if s.cause is not None or not (isinstance(e, ast.Name) and e.id == 'ValueError' and 'ValueError' not in self.locals):
+                raise Unsupported(ast.unparse(s))
+            return list(ctx.handler) if ctx.handler is not None else ['.error (.py .valueError)']
         if isinstance(s, ast.Continue):
             if not ctx.in_loop:
                 raise Unsupported('continue outside a loop')
@@ -665,14 +807,14 @@ class Fn:
 
     # several ways on, one continuation ---------------------------------------------------------------
 
-    def branching(self, alts, rest, env, k, ctx, assemble):
+    def branching(self, alts, rest, env, k, ctx, assemble, extra=None, force=False):
         """alts = [(env of the branch, statements or a function (k) -> lines)];  assemble(list of the lines of
         each branch) -> lines.  What follows (`rest`, then k) is placed after the one branch that goes on, or
         into a local function when several do."""
         def run(a_env, body, kk):
             return body(a_env, kk) if callable(body) else self.block(body, dict(a_env), kk, ctx)
         going = [callable(body) or self.falls(body) for _, body in alts]
-        if not rest or sum(going) <= 1:
+        if not rest or (sum(going) <= 1 and not force):
             # what follows sees the branch's own view of the variables (a narrowed `value`, names bound in the branch)
             kk = lambda env_b: self.block(rest, dict(env_b), k, ctx)
             return assemble([run(a_env, body, kk) for a_env, body in alts])
@@ -686,7 +828,7 @@ class Fn:
             ends.append((self.nmark, env_b))
             return ['⟪J%d⟫' % self.nmark]
         out = [run(a_env, body, kk) for a_env, body in alts]
-        assigned = {}
+        assigned = dict(extra or {})         # `extra`: what a branch given as a function assigns
         for a_env, body in alts:
             if not callable(body):
                 self.stores(body, assigned)
@@ -718,6 +860,25 @@ class Fn:
 
     def if_(self, s, rest, env, k, ctx):
         test, body, orelse = s.test, s.body, s.orelse
+        if isinstance(test, ast.UnaryOp) and isinstance(test.op, ast.Not) and isinstance(test.operand, ast.BoolOp):
+            return self.if_(ast.If(test=test.operand, body=list(orelse), orelse=list(body)), rest, env, k, ctx)
+        if isinstance(test, ast.BoolOp) and len(test.values) >= 2:
+            # `a or b` / `a and b` where b can raise, or relies on what `isinstance` in a established: nested ifs
+            saved = (self.ntmp, set(self.deps))
+            try:
+                self.truth(test, env)
+                plain = True
+            except Unsupported:
+                plain = False
+            self.ntmp, self.deps = saved
+            if not plain:
+                first = test.values[0]
+                others = test.values[1] if len(test.values) == 2 else ast.BoolOp(op=test.op, values=list(test.values[1:]))
+                if isinstance(test.op, ast.Or):
+                    new = ast.If(test=first, body=list(body), orelse=[ast.If(test=others, body=list(body), orelse=list(orelse))])
+                else:
+                    new = ast.If(test=first, body=[ast.If(test=others, body=list(body), orelse=list(orelse))], orelse=list(orelse))
+                return self.if_(new, rest, env, k, ctx)
         neg = False
         while isinstance(test, ast.UnaryOp) and isinstance(test.op, ast.Not) and \
                 (self.static_isinstance(test.operand, env) or self.none_test(test.operand, env)):
@@ -762,7 +923,7 @@ class Fn:
             x = '(!%s)' % x
 
         def assemble(outs):
-            return self.binds_lines(bt) + ['if %s then' % x] + ind(outs[0]) + ['else'] + ind(outs[1])
+            return self.wrap(bt, ['if %s then' % x] + ind(outs[0]) + ['else'] + ind(outs[1]), ctx)
         return self.branching([(dict(env), body), (dict(env), orelse)], rest, env, k, ctx, assemble)
 
     def none_test(self, e, env):
@@ -773,59 +934,42 @@ class Fn:
         return None
 
     def try_(self, s, rest, env, k, ctx):
-        """try: <target> = int(<e>)  except ValueError: <handler>"""
-        if s.orelse or s.finalbody or len(s.handlers) != 1 or len(s.body) != 1:
+        """try: <body>  except ValueError: <handler>  [else: <orelse>].  Inside <body>, what raises ValueError
+        (`raise ValueError()`, `int(<str>)`, `AnsiParam(<int>)`) goes to the handler — a local function `hN_` of
+        the variables <body> assigns; other exceptions pass.  <orelse> runs after <body>, outside the handler."""
+        if s.finalbody or len(s.handlers) != 1:
             raise Unsupported('try: ' + ast.unparse(s).split('\n')[1])
         h = s.handlers[0]
         if h.name is not None or not (isinstance(h.type, ast.Name) and h.type.id == 'ValueError' and 'ValueError' not in self.locals):
             raise Unsupported('except clause')
-        a = s.body[0]
-        if not (isinstance(a, ast.Assign) and len(a.targets) == 1 and isinstance(a.value, ast.Call) and isinstance(a.value.func, ast.Name)
-                and a.value.func.id == 'int' and 'int' not in self.locals and len(a.value.args) == 1 and not a.value.keywords):
-            raise Unsupported('try body: ' + ast.unparse(a))
-        b, x, t = self.ex(a.value.args[0], env)
-        kind = t.r().kind
-        conv = {'Code': '(PyParse.int %s)', 'Str': '(Py.int %s)', 'Int': '(some %s)'}.get(kind)
-        if conv is None:
-            raise Unsupported('int() of %r' % t)
-        # the subscript of the target is evaluated after int() succeeded, inside the try: it may raise
-        # IndexError, which the handler does not catch
-        n = self.tmp()
+        assigned = self.stores(s.body)
+        params = [n for n in env if n in assigned]
 
-        def ok_branch(a_env, kk):
-            e2 = dict(a_env)
-            return self.assign(a.targets[0], n, INT, e2) + kk(e2)
-
-        def assemble(outs):
-            l = self.binds_lines(b) + ['(match %s with' % (conv % x), '| some %s =>' % n] + ind(outs[0]) + ['| none =>'] + ind(outs[1])
-            l[-1] += ')'
-            return l
-        # the names the try body assigns count as assigned for the join point
-        return self.branching_with(self.stores([a]), [(dict(env), ok_branch), (dict(env), h.body)], rest, env, k, ctx, assemble)
-
-    def branching_with(self, extra, alts, rest, env, k, ctx, assemble):
-        """branching, the stores `extra` (of a branch given as a function) counted as assigned"""
-        saved = self.stores
-
-        def stores(stmts, out=None):
-            out = saved(stmts, out)
-            for n, ks in extra.items():
-                out.setdefault(n, set()).update(ks)
-            return out
-        self.stores = stores
-        try:
-            return self.branching(alts, rest, env, k, ctx, assemble)
-        finally:
-            self.stores = saved
+        def alt(a_env, kk):
+            self.njoin += 1
+            hn = 'h%d_' % self.njoin
+            hbody = self.block(h.body, dict(a_env), kk, ctx)
+            ty = ' → '.join([lean_ty(a_env[n], True) for n in params] + ['Except Exc %s' % ctx.result])
+            head = ['let %s : %s := (%s' % (hn, ty, 'fun %s =>' % ' '.join(mangle(n) for n in params) if params else '')]
+            hbody = ind(hbody, 4)
+            hbody[-1] += ')'
+            inner = ctx.but(handler=[' '.join([hn] + [mangle(n) for n in params])])
+            body = self.block(s.body, dict(a_env), lambda e: self.block(s.orelse, e, kk, ctx), inner)
+            return head + hbody + body
+        force = bool(rest) and self.falls(h.body) and self.falls(list(s.body) + list(s.orelse))
+        return self.branching([(dict(env), alt)], rest, env, k, ctx, lambda outs: outs[0], extra=self.stores([s]), force=force)
 
     def for_(self, s, rest, env, k, ctx):
         if s.orelse:
             raise Unsupported('for … else')
+        if ctx.handler is not None:
+            raise Unsupported('a loop inside try')          # a ValueError raised in a round could not reach the handler
         body_stores = self.stores(s.body)
+        has_return = any(isinstance(n, ast.Return) for st in s.body for n in ast.walk(st))
         it = s.iter
         pre = []           # lines at the start of each round
         targets = {}
-        live = None
+        it_binds = []
         if isinstance(it, ast.Call) and isinstance(it.func, ast.Name) and it.func.id == 'enumerate' and 'enumerate' not in self.locals \
                 and len(it.args) == 1 and not it.keywords and isinstance(it.args[0], ast.Name) and it.args[0].id in env \
                 and env[it.args[0].id].r().kind == 'List' and isinstance(s.target, ast.Tuple) and len(s.target.elts) == 2 \
@@ -840,15 +984,23 @@ class Fn:
             targets = {i_n: INT, v_n: env[live].r().elem}
             pre = ['(Py.getIdx %s %s).bind fun %s =>' % (mangle(live), mangle(i_n), mangle(v_n))]
             over = '(Py.rangeAsc ((%s).length : Int))' % mangle(live)
-        elif isinstance(it, ast.Name) and it.id in env and env[it.id].r().kind == 'List' and isinstance(s.target, ast.Name):
-            if it.id in body_stores:
-                raise Unsupported('the loop over %s changes it' % it.id)
-            item_ty, item_pat = env[it.id].r().elem, mangle(s.target.id)
-            targets = {s.target.id: item_ty}
-            over = mangle(it.id)
         elif isinstance(it, ast.Name) and it.id in ITERABLE_GLOBALS and it.id not in env and it.id not in self.locals and isinstance(s.target, ast.Name):
             mod, over, item_ty = ITERABLE_GLOBALS[it.id]
             self.need_import(it.id, mod)
+            item_pat = mangle(s.target.id)
+            targets = {s.target.id: item_ty}
+        elif isinstance(s.target, ast.Name):
+            # a list or a str, evaluated once before the loop
+            it_binds, over, t_it = self.ex(it, env)
+            t_it = t_it.r()
+            if t_it.kind == 'List':
+                item_ty = t_it.elem
+            elif t_it.kind == 'Str':
+                item_ty = CHAR
+            else:
+                raise Unsupported('for %s in %s' % (ast.unparse(s.target), ast.unparse(it)))
+            if isinstance(it, ast.Name) and it.id in body_stores:
+                raise Unsupported('the loop over %s changes it' % it.id)
             item_pat = mangle(s.target.id)
             targets = {s.target.id: item_ty}
         else:
@@ -856,42 +1008,57 @@ class Fn:
         for n in targets:
             if n in env:
                 raise Unsupported('the loop variable %s exists before the loop' % n)
-            if body_stores.get(n):
-                raise Unsupported('the loop variable %s is assigned in the body' % n)
+            if body_stores.get(n, set()) - {'bind'}:
+                raise Unsupported('the loop variable %s is changed in the body' % n)
         state = [n for n in body_stores if n in env]
-        if not state:
+        if not state and not has_return:
             raise Unsupported('a loop that assigns nothing')
         body_env = dict(env)
         body_env.update(targets)
 
         def body_lines():
-            st_ty = ' × '.join(lean_ty(env[n], True) for n in state)
-            tup = mangle(state[0]) if len(state) == 1 else '(%s)' % ', '.join(mangle(n) for n in state)
+            tys = (['Option ⟪R⟫'] if has_return else []) + [lean_ty(env[n], True) for n in state]
+            names = (['ret_'] if has_return else []) + [mangle(n) for n in state]
+            st_ty = ' × '.join(tys)
+            tup = names[0] if len(names) == 1 else '(%s)' % ', '.join(names)
 
             def yield_state(env_b):
                 for n in state:
                     unify(env_b[n], env[n], 'for %s at the end of a round' % n)
                 return ['.ok %s' % tup]
-            inner = Ctx(st_ty if len(state) == 1 else '(%s)' % st_ty, yield_state, True)
-            return st_ty, tup, pre + self.block(s.body, dict(body_env), yield_state, inner)
+
+            def ret(x):           # `return x` inside the loop: the rounds that follow do nothing
+                vals = ['(some %s)' % x] + names[1:]
+                return ['.ok %s' % (vals[0] if len(vals) == 1 else '(%s)' % ', '.join(vals))]
+            inner = Ctx(st_ty if len(names) == 1 else '(%s)' % st_ty, ret if has_return else None, yield_state, True)
+            lines = pre + self.block(s.body, dict(body_env), yield_state, inner)
+            if has_return:
+                lines = ['if (ret_).isSome then .ok %s else' % tup] + lines
+            return names, st_ty, tup, lines
         # the state: by type, variables of one type in the order of their first assignment in the body (a
-        # convention that swapping branches or reordering the initialisations before the loop does not change).
+        # convention that swapping branches or reordering the initialisations before the loop does not change);
+        # in front of them `ret_ : Option R` when the body has a `return` (some r: the function has returned r).
         # The types of lists that start as `[]` are known only after the body has been gone through once.
         saved = (self.ntmp, self.njoin, self.nmark)
         body_lines()
         self.ntmp, self.njoin, self.nmark = saved
         state = sorted(state, key=lambda n: lean_ty(env[n]))
-        st_ty, tup, body = body_lines()
-        if len(state) == 1:
-            head = ['(List.foldlM (m := Except Exc) (fun (%s : %s) (%s : %s) =>' % (mangle(state[0]), st_ty, item_pat, lean_ty(item_ty))]
-            tail = ['  %s %s).bind fun %s =>' % (mangle(state[0]), over, mangle(state[0]))]
+        names, st_ty, tup, body = body_lines()
+        init = tup.replace('ret_', '(none : Option ⟪R⟫)', 1) if has_return else tup
+        if len(names) == 1:
+            head = ['(List.foldlM (m := Except Exc) (fun (%s : %s) (%s : %s) =>' % (names[0], st_ty, item_pat, lean_ty(item_ty))]
+            tail = ['  %s %s).bind fun %s =>' % (init, over, names[0])]
         else:
             head = ['(List.foldlM (m := Except Exc) (fun (st_ : %s) (%s : %s) =>' % (st_ty, item_pat, lean_ty(item_ty)),
                     '    match st_ with', '    | %s =>' % tup]
-            tail = ['  %s %s).bind fun st_ =>' % (tup, over), 'match st_ with', '| %s =>' % tup]
+            tail = ['  %s %s).bind fun st_ =>' % (init, over), 'match st_ with', '| %s =>' % tup]
         body = ind(body, 4)
         body[-1] += ')'
-        return head + body + tail + self.block(rest, dict(env), k, ctx)
+        after = self.block(rest, dict(env), k, ctx)
+        if has_return:
+            after = ['(match ret_ with', '| some r_ =>'] + ind(ctx.ret('r_')) + ['| none =>'] + ind(after)
+            after[-1] += ')'
+        return self.wrap(it_binds, head + body + tail + after, ctx)
 
     # -- the function ---------------------------------------------------------------------------------
 
@@ -900,9 +1067,13 @@ class Fn:
         a = fn.args
         if a.vararg or a.kwarg or a.kwonlyargs or a.posonlyargs:
             raise Unsupported('signature')
-        self.locals = set(self.stores(fn.body)) | {p for p, _ in self.params}
+        st = self.stores(fn.body)
+        self.locals = set(st) | {p for p, _ in self.params}
+        self.mutates_self = 'self' in st and any(p == 'self' and t.r().kind == 'Self' for p, t in self.params)
+        self.ret_optional = any(isinstance(n, ast.Return) and isinstance(n.value, ast.Constant) and n.value.value is None
+                                for n in ast.walk(fn))
         for n in self.locals:
-            if re.fullmatch(r'(t|k)\d+_|st_', n):
+            if re.fullmatch(r'(t|k|h)\d+_|st_|ret_|r_', n):
                 raise Unsupported('a local named like a generated name: ' + n)
         env = {}
         for p, t in self.params:
@@ -912,12 +1083,15 @@ class Fn:
 
         def fell_off(env_b):
             raise Unsupported('the end of the function can be reached without a return')
-        ctx = Ctx('⟪R⟫')
+        if self.mutates_self:       # the result and the object afterwards
+            ctx = Ctx('(⟪R⟫ × PyParse.SObj)', lambda x: ['.ok (%s, self)' % x])
+        else:
+            ctx = Ctx('⟪R⟫', lambda x: ['.ok %s' % x])
         lines = self.block(fn.body, env, fell_off, ctx)
         text = '\n'.join(ind(lines))
         text = text.replace('⟪R⟫', lean_ty(self.ret, True))
         text = self.resolve_vars(text)
-        ret = self.resolve_vars(lean_ty(self.ret, True))
+        ret = self.resolve_vars(ctx.result.replace('⟪R⟫', lean_ty(self.ret, True)))
         if re.search(r'⟪', text + ret):
             raise Unsupported('unresolved placeholder')
         sig = ' '.join('(%s : %s)' % (mangle(p), lean_ty(t)) for p, t in self.params)
@@ -983,20 +1157,63 @@ def settingOfCode (c : Code) : Except Exc Str := mkSetting (Code.toStr c)
 /-- `AnsiSetting(<list>)`: `setting = ansi_sep.join([str(s) for s in setting])` -/
 def settingOfCodes (l : List Code) : Except Exc Str := mkSetting (joinSep Gen.ansiSep (l.map Code.toStr))
 
+/-- `s.split(sep, 1)`: at most one split, at the first separator -/
+def splitFirst (c : Char) : Str → List Str
+  | [] => [[]]
+  | x :: rest =>
+    if x == c then [[], rest]
+    else
+      match splitFirst c rest with
+      | [] => [[x]]
+      | h :: t => (x :: h) :: t
+
+def split1 (s sep : Str) : Except Exc (List Str) :=
+  match sep with
+  | [] => .error (.py .valueError)
+  | [c] => .ok (splitFirst c s)
+  | _ :: _ :: _ => .error .outside
+
+/-- `AnsiParam(v)` for a value that is an `int` or a `str`: `(effect_type.value, effect_fn.value)`; `none` =
+    ValueError (no `str` is a member of the IntEnum) -/
+def ansiParamCode : Code → Option (Nat × Nat)
+  | .int i => ansiParam i
+  | .str _ => none
+
+/-- `self` inside the methods of `AnsiSetting`: the text `_str` (assigned once, in `__init__`) and the two
+    attributes `valid` and `parsable` keep their results in (`none`: the attribute does not exist yet) -/
+structure SObj where
+  str : Str
+  valid_ : Option Bool := none
+  parsable_ : Option Bool := none
+  deriving DecidableEq, Repr
+
+/-- reading an attribute that may not exist (AttributeError: not an exception the model has) -/
+def getAttr {α : Type} : Option α → Except Exc α
+  | some a => .ok a
+  | none => .error .outside
+
 /-- `del d[k]`; KeyError when absent -/
 def dictDel (d : PyDict) (k : Nat) : Except Exc PyDict := if d.contains k then .ok (d.erase k) else .error .key
 
 end PyParse
 '''
 
-# (python name, module, [(suffix, doc detail)] is derived from the annotation) and, for the stubs, the signatures expected
-FUNCS = [('settings_to_dict', 'SettingsToDict'), ('parse_graphic_sequence', 'ParseGraphicSequence')]
+# what is translated: (python name, class or None, generated module); for the stubs, the signatures expected
+FUNCS = [('settings_to_dict', None, 'SettingsToDict'), ('parse_graphic_sequence', None, 'ParseGraphicSequence')]
+METHODS = [('valid', 'AnsiSetting', 'SettingValid'), ('to_list', 'AnsiSetting', 'SettingToList'),
+           ('parsable', 'AnsiSetting', 'SettingParsable'), ('get_initial_param', 'AnsiSetting', 'SettingInitialParam')]
 EXPECTED = {
     'settingsToDictCode': ('(settings : List Setting) (old_settings_dict : PyDict)', 'PyDict'),
     'parseGraphicSequenceStr': ('(sequence : Str) (add_erroneous : Bool)', '(List Str)'),
     'parseGraphicSequenceList': ('(sequence : List Code) (add_erroneous : Bool)', '(List Str)'),
+    'settingValid': ('(self : PyParse.SObj)', '(Bool × PyParse.SObj)'),
+    'settingToList': ('(self : PyParse.SObj)', '(List Code)'),
+    'settingParsable': ('(self : PyParse.SObj)', '(Bool × PyParse.SObj)'),
+    'settingInitialParam': ('(self : PyParse.SObj)', '(Option (Nat × Nat))'),
 }
-VARIANTS = {'settings_to_dict': ['settingsToDictCode'], 'parse_graphic_sequence': ['parseGraphicSequenceStr', 'parseGraphicSequenceList']}
+VARIANTS = {'settings_to_dict': ['settingsToDictCode'], 'parse_graphic_sequence': ['parseGraphicSequenceStr', 'parseGraphicSequenceList'],
+            'valid': ['settingValid'], 'to_list': ['settingToList'], 'parsable': ['settingParsable'],
+            'get_initial_param': ['settingInitialParam']}
 
 
 def camel(name):
@@ -1004,8 +1221,8 @@ def camel(name):
     return parts[0] + ''.join(p[0].upper() + p[1:] for p in parts[1:])
 
 
-def module_imports(tree):
-    """name -> module it is imported from (`from .m import name`), names assigned at module level removed"""
+def module_imports(tree, modname):
+    """name -> module it comes from: `from .m import name` -> m; defined at the top level of this file -> modname"""
     imp = {}
     for st in tree.body:
         if isinstance(st, ast.ImportFrom) and st.level == 1 and st.module:
@@ -1020,7 +1237,7 @@ def module_imports(tree):
         elif isinstance(st, (ast.AnnAssign, ast.AugAssign)) and isinstance(st.target, ast.Name):
             names = [st.target.id]
         for n in names:
-            imp.pop(n, None)
+            imp[n] = modname
     return imp
 
 
@@ -1032,73 +1249,101 @@ def stub(lean_name, why):
             'def %sOk : Bool := false\n') % (why, lean_name, sig, ret, lean_name)
 
 
-def translate_function(tree, pyname):
-    """-> [(lean name, text)] for the variants of one function; never raises"""
+def translate_function(tree, pyname, modname, cls=None):
+    """-> ([(lean name, text)], generated modules it calls) for the variants of one function / method; never raises"""
     out = []
+    deps = set()
     try:
-        fns = [f for f in tree.body if isinstance(f, ast.FunctionDef) and f.name == pyname]
+        scope = tree.body
+        if cls is not None:
+            classes = [c for c in tree.body if isinstance(c, ast.ClassDef) and c.name == cls]
+            if len(classes) != 1:
+                raise Unsupported('%d definitions of class %s' % (len(classes), cls))
+            scope = classes[0].body
+        fns = [f for f in scope if isinstance(f, ast.FunctionDef) and f.name == pyname]
         if len(fns) != 1:
             raise Unsupported('%d definitions of %s' % (len(fns), pyname))
         fn = fns[0]
-        if fn.decorator_list:
-            raise Unsupported('decorated')
-        imports = module_imports(tree)
-        alts = []
-        for a in fn.args.args:
-            if a.annotation is None:
-                raise Unsupported('parameter %s without annotation' % a.arg)
-            alts.append(annotation(a.annotation))
-        unions = [i for i, al in enumerate(alts) if len(al) > 1]
-        if len(unions) > 1:
-            raise Unsupported('two parameters of union type')
+        for d in fn.decorator_list:
+            if not (cls is not None and isinstance(d, ast.Name) and d.id == 'property'):
+                raise Unsupported('decorated')
+        is_property = bool(fn.decorator_list)
+        imports = module_imports(tree, modname)
         variants = []
-        if unions:
-            for t in alts[unions[0]]:
-                suffix = {'Str': 'Str', 'List': 'List', 'Int': 'Int'}.get(t.kind)
-                if suffix is None:
-                    raise Unsupported('union member %r' % t)
-                variants.append((camel(pyname) + suffix, [(a.arg, t if i == unions[0] else alts[i][0]) for i, a in enumerate(fn.args.args)],
-                                 '`%s` (`%s` a `%s`), statement by statement' % (pyname, fn.args.args[unions[0]].arg, {'Str': 'str', 'List': 'list', 'Int': 'int'}[t.kind])))
+        if cls is not None:
+            if [a.arg for a in fn.args.args] != ['self'] or fn.args.defaults:
+                raise Unsupported('a method with parameters')
+            if SELF_METHODS[pyname][4] != is_property:
+                raise Unsupported('property or method: not what the callers are translated for')
+            variants.append((SELF_METHODS[pyname][0], [('self', SELF)], '`%s.%s`, statement by statement%s' % (
+                cls, pyname, ': the result and the object afterwards (its cache attributes)' if SELF_METHODS[pyname][3] else '')))
         else:
-            variants.append((camel(pyname) + 'Code', [(a.arg, alts[i][0]) for i, a in enumerate(fn.args.args)], '`%s`, statement by statement' % pyname))
+            alts = []
+            for a in fn.args.args:
+                if a.annotation is None:
+                    raise Unsupported('parameter %s without annotation' % a.arg)
+                alts.append(annotation(a.annotation))
+            unions = [i for i, al in enumerate(alts) if len(al) > 1]
+            if len(unions) > 1:
+                raise Unsupported('two parameters of union type')
+            if unions:
+                for t in alts[unions[0]]:
+                    suffix = {'Str': 'Str', 'List': 'List', 'Int': 'Int'}.get(t.kind)
+                    if suffix is None:
+                        raise Unsupported('union member %r' % t)
+                    variants.append((camel(pyname) + suffix, [(a.arg, t if i == unions[0] else alts[i][0]) for i, a in enumerate(fn.args.args)],
+                                     '`%s` (`%s` a `%s`), statement by statement' % (pyname, fn.args.args[unions[0]].arg, {'Str': 'str', 'List': 'list', 'Int': 'int'}[t.kind])))
+            else:
+                variants.append((camel(pyname) + 'Code', [(a.arg, alts[i][0]) for i, a in enumerate(fn.args.args)], '`%s`, statement by statement' % pyname))
     except Exception as e:                                           # noqa: the generator itself never fails
-        return [(n, stub(n, '%s: %s' % (type(e).__name__, e))) for n in VARIANTS[pyname]]
+        return [(n, stub(n, '%s: %s' % (type(e).__name__, e))) for n in VARIANTS[pyname]], deps
     done = {}
     for lean_name, params, doc in variants:
         try:
             if lean_name not in EXPECTED:
                 raise Unsupported('unexpected variant ' + lean_name)
-            text = Fn(fn, imports, params).lean(lean_name, doc) + 'def %sOk : Bool := true\n' % lean_name
+            f = Fn(fn, imports, params)
+            text = f.lean(lean_name, doc)
+            sig, ret = EXPECTED[lean_name]
+            if 'def %s %s : Except Exc %s :=' % (lean_name, sig, ret) not in text:
+                raise Unsupported('not the signature the callers and the theorems expect: ' + text.split(':=')[0].split('\n')[-1])
+            text += 'def %sOk : Bool := true\n' % lean_name
+            deps |= f.deps
         except Exception as e:                                       # noqa
             text = stub(lean_name, '%s: %s' % (type(e).__name__, e)) if lean_name in EXPECTED else None
         if text is not None:
             done[lean_name] = text
     for n in VARIANTS[pyname]:
         out.append((n, done.get(n) or stub(n, 'no such variant in the signature')))
-    return out
+    return out, deps
 
 
-HEADER = ['/-  GENERATED by harness/translate.py (harness/pyparse.py) from the working tree of the repository — do not edit.',
-          '    One function of ansi_parsing.py, translated statement by statement. -/',
-          'import AnsiModel.Obj', 'import AnsiModel.Parse', 'import AnsiModel.PyStr', 'import AnsiModel.Setting',
-          'import AnsiModel.Generated.Tables', 'import AnsiModel.Generated.Methods.ParsePrims', '', 'set_option linter.unusedVariables false']
+def header(what):
+    return ['/-  GENERATED by harness/translate.py (harness/pyparse.py) from the working tree of the repository — do not edit.',
+            '    %s, translated statement by statement. -/' % what,
+            'import AnsiModel.Obj', 'import AnsiModel.Parse', 'import AnsiModel.PyStr', 'import AnsiModel.Setting',
+            'import AnsiModel.Generated.Tables', 'import AnsiModel.Generated.Methods.ParsePrims']
 
 
-def generate(repo, src=None):
-    """relative file name -> Lean source.  `src`: path of the Python file (default: ansi_parsing.py of the repository)"""
-    path = src or os.path.join(repo, SRC)
-    try:
-        tree = ast.parse(open(path).read())
-    except Exception as e:                                           # noqa
-        tree = ast.parse('')
+def generate(repo, src=None, src_format=None):
+    """relative file name -> Lean source.  `src` / `src_format`: paths of the Python files to read instead of
+    ansi_parsing.py / ansi_format.py of the repository"""
     files = {'Methods/ParsePrims.lean': PRIMS}
-    for pyname, mod in FUNCS:
-        parts = translate_function(tree, pyname)
-        files['Methods/%s.lean' % mod] = '\n'.join(HEADER + ['', 'namespace Gen', ''] + [t for _, t in parts] + ['end Gen', ''])
+    for path, modname, items, what in ((src or os.path.join(repo, SRC), 'ansi_parsing', FUNCS, 'One function of ansi_parsing.py'),
+                                       (src_format or os.path.join(repo, SRC_FORMAT), 'ansi_format', METHODS, 'One method of AnsiSetting (ansi_format.py)')):
+        try:
+            tree = ast.parse(open(path).read())
+        except Exception as e:                                       # noqa
+            tree = ast.parse('')
+        for pyname, cls, mod in items:
+            parts, deps = translate_function(tree, pyname, modname, cls)
+            L = header(what) + ['import AnsiModel.Generated.Methods.%s' % d for d in sorted(deps) if d != mod]
+            L += ['', 'set_option linter.unusedVariables false', '', 'namespace Gen', ''] + [t for _, t in parts] + ['end Gen', '']
+            files['Methods/%s.lean' % mod] = '\n'.join(L)
     return files
 
 
-MODULES = ['ParsePrims'] + [m for _, m in FUNCS]
+MODULES = ['ParsePrims'] + [m for _, _, m in FUNCS] + [m for _, _, m in METHODS]
 
 
 if __name__ == '__main__':
@@ -1107,9 +1352,10 @@ if __name__ == '__main__':
     ap = argparse.ArgumentParser()
     ap.add_argument('--repo', default='/repo')
     ap.add_argument('--src', default=None, help='translate this copy of ansi_parsing.py instead')
+    ap.add_argument('--src-format', default=None, help='translate this copy of ansi_format.py instead')
     ap.add_argument('--out', default=None, help='write the files under this directory (default: print)')
     a = ap.parse_args()
-    fs = generate(a.repo, a.src)
+    fs = generate(a.repo, a.src, a.src_format)
     for name, text in fs.items():
         if a.out:
             p = os.path.join(a.out, name)
